@@ -45,6 +45,8 @@ def enumerate_cases(tier):
         for dst in ("plate", "trough"):
             for mode in ["auto", "source", "destination"] + INVALID_MODES:
                 yield {"kind": "opt", "src": src, "dst": dst, "mode": mode}
+                if src == dst:
+                    yield {"kind": "opt", "src": src, "dst": dst, "mode": mode, "same": True}
             for gs in geoms[src]:
                 for gd in geoms[dst]:
                     for mode in ("auto", "source", "destination"):
@@ -85,6 +87,9 @@ def check_case(case) -> Obs:
             return robotools.Labware(name, r, c, min_volume=0, max_volume=100)
 
         src, dst = mk(case["src"], "S", case.get("gsrc")), mk(case["dst"], "D", case.get("gdst"))
+        if case.get("same") and case["src"] == case["dst"]:
+            dst = src  # one labware object on both sides (redistribution within a plate)
+            obs.cls("opt-same-object")
         mode = case["mode"]
         obs.cls("opt")
         try:
@@ -134,7 +139,27 @@ def check_case(case) -> Obs:
             obs.bad("C18/invalid-mode-accepted", f"partition_by_column(..., {mode!r}) returned {res!r}")
         return obs
 
-    groups = partition_by_column(srcs, dsts, vols, mode)
+    # the three parallel arguments are Iterables: lists, tuples, numpy arrays, one-shot iterators; volumes also as numpy
+    # scalars of single precision (the triples that come back must be the ones that went in)
+    form = (len(triples) + sum(len(str(t[2])) for t in triples)) % 5
+    expect_vols = list(vols)
+    a_s, a_d, a_v = srcs, dsts, vols
+    if triples and form == 1:
+        a_s, a_d, a_v = tuple(srcs), tuple(dsts), tuple(vols)
+    elif triples and form == 2:
+        import numpy as np
+
+        a_s, a_d, a_v = np.array(srcs), np.array(dsts), np.array(vols, dtype=float)
+    elif triples and form == 3:
+        a_s, a_d, a_v = iter(list(srcs)), iter(list(dsts)), iter(list(vols))
+    elif triples and form == 4:
+        import numpy as np
+
+        a_v = [np.float32(v) for v in vols]
+        expect_vols = [float(v) for v in a_v]
+    obs.cls("arguments-as:" + ["lists", "tuples", "arrays", "iterators", "float32-volumes"][form if triples else 0])
+    triples = [(s_, d_, v_) for s_, d_, v_ in zip(srcs, dsts, expect_vols)]
+    groups = partition_by_column(a_s, a_d, a_v, mode)
     side = 0 if mode == "source" else 1
     out = []
     prev_col = None
